@@ -29,6 +29,9 @@ KINDS = [
     ('remove_item_missing', False), ('stale_get_packets', False), ('stale_destroy', False),
     ('stale_set_category', False), ('stale_add_packet', False), ('stale_add_item', False),
     ('get_frame_invalid', False), ('loop_destroy_twice', False),
+    # failing steps of a packet iterator, followed by close (which commits whatever the step left behind)
+    ('itr_update_foreign', True), ('itr_update_before_next', False), ('itr_remove_before_next', False),
+    ('itr_update_after_remove', False),
 ]
 
 
@@ -36,6 +39,8 @@ def all_cases():
     cases = []
     for kind, listy in KINDS:
         for ctxname in CONTEXTS:
+            if kind.startswith('itr_') and ctxname != 'plain':
+                continue        # the failing call is itself an iterator step: no second, enclosing iterator
             if listy:
                 for n in (1, 2, 3, 5):
                     for pos in POSITIONS:
@@ -202,6 +207,45 @@ class Sys(History):
             L.packet_free(pk)
             L.loop_free(lh)
             return 'cif_loop_add_packet', rc, {CIF_WRONG_LOOP}
+        if kind.startswith('itr_'):
+            lh = self.loop_handle('_a1')
+            rc, it = L.loop_get_packets(lh)
+            if rc != CIF_OK:
+                raise Mismatch('fixture:get_packets:%d' % rc, 'cannot open the iterator: %d' % rc)
+            try:
+                if kind == 'itr_update_foreign':
+                    L.it_next(it, 'null')
+                    names = ['_a1', '_a2', '_a3', '_a4', '_a5'][:n]
+                    names[position_index(n, pos)] = '_b1'
+                    rc, pk = L.packet_create(names)
+                    for nm in names:
+                        v = self.mk(('char', 'overwritten', True))
+                        L.packet_set(pk, nm, v)
+                        L.value_free(v)
+                    rc = L.it_update(it, pk)
+                    L.packet_free(pk)
+                    out = ('cif_pktitr_update_packet', rc, {CIF_WRONG_LOOP})
+                elif kind == 'itr_update_before_next':
+                    rc, pk = L.packet_create(['_a1'])
+                    rc = L.it_update(it, pk)
+                    L.packet_free(pk)
+                    out = ('cif_pktitr_update_packet', rc, {CIF_MISUSE})
+                elif kind == 'itr_remove_before_next':
+                    out = ('cif_pktitr_remove_packet', L.it_remove(it), {CIF_MISUSE})
+                else:
+                    # the removal itself succeeds and is then reverted by the abort below; the update that follows it fails
+                    L.it_next(it, 'null')
+                    rc0 = L.it_remove(it)
+                    rc, pk = L.packet_create(['_a1'])
+                    rc = L.it_update(it, pk)
+                    L.packet_free(pk)
+                    out = ('cif_pktitr_update_packet', rc if rc0 == CIF_OK else -rc0, {CIF_MISUSE})
+            finally:
+                rc2 = L.it_abort(it) if kind == 'itr_update_after_remove' else L.it_close(it)
+                L.loop_free(lh)
+            if rc2 != CIF_OK:
+                raise Mismatch('model:cif_pktitr_close:0:%d:after-%s' % (rc2, kind), 'finishing the iterator -> %d' % rc2)
+            return out
         if kind == 'add_packet_empty':
             lh = self.loop_handle('_a2')
             rc, pk = L.packet_create([])
